@@ -350,6 +350,18 @@ def flush(ctx, pending):
         ops.append({"op": "txn.offline", **base})
         ops.append({"op": "txn.spec", **base, "out": r["toks"]})
     ans = ctx.drv.ask(ops)
+    # the multidb shape: which setting the judged configure() call ends up with is the model's configureAll over the
+    # shared options (Model.Txn.lastCfg); compared with the implementation's impl.transactional_ddl
+    multi = [(inp, r) for inp, r in pending if inp.get("prefix") is not None]
+    if multi:
+        q = [{"op": "txn.configure", "dialectDefault": DEFAULT_TDDL[inp["dialect"]],
+              "calls": [[ov, inp["perMig"]] for _, ov in inp["prefix"]], "call": [inp["override"], inp["perMig"]]} for inp, r in multi]
+        for (inp, r), a in zip(multi, ctx.drv.ask(q)):
+            if a.get("tddl") != r["impl_tddl"]:
+                ctx.disagree("txn.configure", inp, {"transactional_ddl": r["impl_tddl"]}, a,
+                             note="the context made by the last configure() call of the run")
+            else:
+                ctx.trace_ok()
     for k, (inp, r) in enumerate(pending):
         m, s = ans[2 * k], ans[2 * k + 1]
         known_leak = (r["impl_tddl"] != r["tddl"] and leaked_override(inp) is not None and leaked_override(inp) == r["impl_tddl"])
